@@ -704,7 +704,7 @@ class VKeyword(VNode):
 
     def __eq__(self, other):  # pragma: no cover
         return (
-            isinstance(other, VCall)
+            isinstance(other, VKeyword)
             and self.key == other.key
             and self.value == other.value
         )
